@@ -142,7 +142,7 @@ package jsonpatch
 
 //@ func (*lazyNode).tryDoc
 //@   requires node: nodeOK(n)
-//@   requires unparsed: n.which != eDoc
+//@   requires unparsed: n.which == eRaw
 //@   ensures[C06] result: result <==> (n.raw != nil && kind(val(*n.raw)) == KObj)
 //@   ensures[C06] parsed: result ==> n.which == eDoc && n.doc != nil && n.doc.obj != nil
 //@   ensures[C06] unchanged: !result ==> n.which == old(n.which)
@@ -155,3 +155,56 @@ package jsonpatch
 //@   ensures[C06] parsed: result ==> n.which == eAry && n.ary != nil
 //@   ensures[C06] unchanged: !result ==> n.which == old(n.which)
 //@   ensures[C01,C06] raw-kept: n.raw == old(n.raw)
+
+//@ ginv raw-consts: bytes(rawJSONNull) == nullText && rawJSONNull != nil && allocated(rawJSONNull) && wf(bytes(rawJSONArray)) && kind(val(bytes(rawJSONArray))) == KArr && jlen(val(bytes(rawJSONArray))) == 0 && nows(bytes(rawJSONArray)) && wf(bytes(rawJSONObject)) && kind(val(bytes(rawJSONObject))) == KObj && jlen(val(bytes(rawJSONObject))) == 0 && nows(bytes(rawJSONObject))
+
+//@ func (*lazyNode).nextByte
+//@   requires node: n != nil && n.raw != nil && wf(*n.raw)
+//@   modifies nothing
+//@   ensures[C01,C16] first-non-space: result == bytes(*n.raw)[fnw(bytes(*n.raw))]
+//@   loop 1
+//@   invariant same-array: s.arr == (*n.raw).arr && s.off >= (*n.raw).off && s.off - (*n.raw).off <= fnw(bytes(*n.raw)) && s.len == (*n.raw).len - (s.off - (*n.raw).off)
+//@   invariant head: bytes(*n.raw)[s.off - (*n.raw).off] == s[0]
+//@   decreases s.len
+
+//@ func isArray
+//@   modifies nothing
+//@   ensures[C01,C16] array-iff: wf(buf) && nows(bytes(buf)) ==> (result <==> kind(val(bytes(buf))) == KArr)
+//@   loop 1
+//@   invariant bounds: -1 <= rangeindex && rangeindex < len(buf)
+//@   invariant skipped-ws: forall j int :: 0 <= j && j <= rangeindex ==> buf[j] == ' ' || buf[j] == '\n' || buf[j] == '\t'
+
+//@ func (*lazyNode).intoDoc
+//@   requires node: nodeOK(n)
+//@   ensures[C01] parsed-iff: (err == nil) <==> (n.which == eDoc)
+//@   ensures[C01] already: old(n.which) == eDoc ==> err == nil && result.0 == old(n.doc)
+//@   ensures[C01] result: err == nil ==> result.0 == n.doc && result.0 != nil && allocated(result.0)
+//@   ensures[C01,C02] nil-on-error: err != nil ==> result.0 == nil && n.which == old(n.which)
+//@   ensures[C01] object-iff: old(n.which) != eDoc && n.raw != nil ==> ((err == nil) <==> kind(val(*n.raw)) == KObj)
+//@   ensures[C15] opts: err == nil && old(n.which) != eDoc ==> n.doc.opts == options
+//@   ensures[C01,C05] raw-kept: n.raw == old(n.raw)
+//@   ensures[C08] attrs: !isTestFailed(err) && !isMissing(err) && !isCopyLimit(err) && !isInvalidIndex(err)
+
+//@ func (*lazyNode).intoAry
+//@   requires node: nodeOK(n)
+//@   ensures[C01] parsed-iff: (err == nil) <==> (n.which == eAry)
+//@   ensures[C01] already: old(n.which) == eAry ==> err == nil && result.0 == old(n.ary)
+//@   ensures[C01] result: err == nil ==> result.0 == n.ary && result.0 != nil && allocated(result.0)
+//@   ensures[C01,C02] nil-on-error: err != nil ==> result.0 == nil && n.which == old(n.which)
+//@   ensures[C01] array-iff: old(n.which) != eAry && n.raw != nil ==> ((err == nil) <==> kind(val(*n.raw)) == KArr)
+//@   ensures[C01,C05] raw-kept: n.raw == old(n.raw)
+//@   ensures[C08] attrs: !isTestFailed(err) && !isMissing(err) && !isCopyLimit(err) && !isInvalidIndex(err)
+
+//@ func (*lazyNode).compact
+//@   requires node: n != nil
+//@   requires raw: n.raw != nil ==> allocated(n.raw) && allocated(*n.raw)
+//@   modifies nothing
+//@   ensures[C06] nil-raw: n.raw == nil ==> result == nil
+//@   ensures[C06] compacted: n.raw != nil && wf(*n.raw) ==> bytes(result) == compactOf(bytes(*n.raw))
+//@   ensures[C06] ill-formed: n.raw != nil && !wf(*n.raw) ==> result == *n.raw
+
+//@ func (*lazyNode).isNull
+//@   requires raw: n != nil && n.raw != nil ==> allocated(n.raw) && allocated(*n.raw) && wf(*n.raw)
+//@   modifies nothing
+//@   ensures[C01,C06] nil-is-null: n == nil || n.raw == nil ==> result
+//@   ensures[C01,C06] null-iff: n != nil && n.raw != nil ==> (result <==> kind(val(*n.raw)) == KNull)
